@@ -8,6 +8,7 @@ import (
 	"fmt"
 	"net"
 	"net/http"
+	"net/url"
 	"strings"
 	"time"
 
@@ -215,7 +216,7 @@ func clientTunnelHTTPRequestTarget(u *base.URL) string {
 		return "/"
 	}
 
-	ret := u.Path
+	ret := (*url.URL)(u).EscapedPath()
 	if ret == "" {
 		ret = "/"
 	}
